@@ -28,6 +28,10 @@ CLAIMED = {
         text="The representation invariant of the node graph (edge symmetry S, staleness closure I, cache correctness J with values, parameter/children sync, acyclicity witness) is proved to be preserved by every node operation of nexus.py from an arbitrary invariant-satisfying state: mark_for_update/notify_parents (mutually recursive, by contract), value setter and getter, update of leaf/Alias/Function/Tuple nodes incl. user functions that raise (the node then stays stale), freeze/unfreeze, add/remove child/parent, replace_child, replace, set_children, func setter, add_parameter, Tuple.__setitem__; the ghost evaluation counter proves 'each definition is evaluated at most once per read and only if the node was stale'. The Lean lemma cache_correct turns the invariant into 'a read returns the from-scratch value'. This is the unbounded-history quantifier of the property collapsed into one obligation per operation.",
         note="Trusted: lists/sets of nodes abstracted to relations; weakrefs never die during an operation; user functions pure (frame axiom on definitions); iterator contract for parent/child iteration; Lean/Mathlib (lemma checked in thorough tier); partial correctness of the two recursions; z3/cvc5. Not under contract (bounded native histories only): Array.update, Fallback.update (open known finding KF-C04-1), Nexus.add/add_function/add_alias/add_dependency/get_value_dict, NodeCycleChecker (assumed contract, exhaustively exercised on all 3-node digraphs).",
         ref="3 C04"),
+    "C02": dict(
+        text="Source level: _calculate_cov_mat_generic is proved equal to (sigma sigma^T) o rho elementwise (both branches, symmetric, correct diagonal); the SimpleGaussianError reference getter/setter, _calculate_cov_mat(_rel), cov_mat and error getters and the error/error_rel setters are proved against the property's src_cov with sigma = relative size x CURRENT reference, under the cache invariant Inv_src, and the reference setter is proved to drop exactly the caches of the opposite relativity. Container level: IndexedContainer._calculate_total_error and XYContainer._calculate_total_error (per-axis routing) are proved by loop invariant to return the sum over ENABLED sources only; get_total_error returns the cached or recomputed sum under Inv_tot; disable_error/enable_error flip exactly the named flag and drop the cache (so disable-then-enable restores the total exactly); every value-changing mutator under contract (IndexedContainer.data setter, HistContainer.fill, HistParametricModel._recalculate, parameters setter of parametric models) is proved to re-point EVERY source and drop the cached total, HistContainer._get_error_reference to bin outstanding entries first, and parametric models to recompute before summing. These per-mutator obligations are what the unbounded histories of the property reduce to.",
+        note="Trusted: numpy elementwise models; array references are value snapshots (in-place aliasing of numpy arrays is not modelled); inverse/Cholesky uninterpreted ('consistent' by construction from the proved total); PSD by the Schur product theorem (assumed); user matrices symmetric; floats as reals. Bounded only (native histories, 15k sequences over 8 container kinds): XYContainer x/y/data setters, MatrixGaussianError conversions, add_error/add_matrix_error argument handling, cor_mat/inverse numerics.",
+        ref="3 C02"),
 }
 
 NOT_APPLICABLE = {
